@@ -5,7 +5,7 @@ from ..common import CaseInfo, Violation
 from ..models import tick_violation
 from ..oracles import Analysis
 from ..simharness import run_case
-from ..strategies import program_strategy, spec_strategy
+from ..strategies import resolved_config, via_templates, program_strategy, spec_strategy
 from ._sim_common import frac, summarize
 
 ID = "C15"
@@ -46,6 +46,9 @@ def cases(draw, tier):
     targets = draw(st.permutations(names))[:k]
     cfg["PL"] = {"class": "PriceLimitRule", "targetMarkets": list(targets), "triggerChangeRate": r,
                  "enabled": draw(st.sampled_from([True, True, True, True, False]))}
+    if draw(st.integers(0, 3)) == 0:
+        cfg["PL"]["referenceMarket"] = draw(st.sampled_from(names))  # obsolete key, accepted with a warning: it changes nothing
+    via_templates(draw, cfg, "PL")
     rest = [n for n in names if n not in targets]
     second = bool(rest) and draw(st.booleans())
     if second:
@@ -72,7 +75,7 @@ def cases(draw, tier):
 def check_case(case):
     res = run_case(case)
     A = Analysis(case, res)
-    sim, cfg = A.sim, case["config"]
+    sim, cfg = A.sim, resolved_config(case["config"])
     pl = cfg["PL"]
     # rate in force per market: each market is targeted by at most one (enabled) rule
     rate_of = {}
